@@ -56,6 +56,11 @@ TEXT = {
         "note": "Trusted: Lean kernel, hook + harness, Node 20. CanBeRemovedIfUnused and symbol-use dependencies are inputs of the model, not modelled; annotation-driven removal (@__PURE__, sideEffects:false) is only covered for the marking, not for call-level purity.",
         "technique": "Lean 4 proof on hand-written model + differential correspondence; Node run-time search",
     },
+    "C06": {
+        "level": "Lean theorems on a model of enum compilation: for every enum with distinct member names the constant inlined for a member equals what the emitted closure stores under that name at run time (last-write-wins object semantics), every member gets a value, auto-increment starts at 0; tied by correspondence with the constants the real ts transform inlines. Type erasure is a search: ~120 kinds of erasable syntax wrapped in markers, typed rendering vs untyped rendering vs js loader must give identical code. Run-time constructs (merged namespaces/enums, cross-file const enums, parameter properties) are a search against the generator's reference semantics in Node. Three recorded known findings.",
+        "note": "Trusted: Lean kernel, harness, Node 20, my reading of TypeScript's scoping rules. Decorators, import-equals, JSX options and tsconfig extends are not covered.",
+        "technique": "Lean 4 proof on hand-written model + differential correspondence; marker-based erasure search; reference-semantics search",
+    },
     "C08": {
         "level": "Lean theorems: the diagnostics comparator is a strict weak order whose unordered pairs have identical keys, so the sorted diagnostics do not depend on arrival order; the entry-point serializer admits only index order under every schedule. Tied by correspondence (real sort.Stable(SortableMsgs), real Serializer with goroutines). Whole-build determinism is a search: repeated in-process builds under varying GOMAXPROCS, random load delays, concurrent siblings and a moved project, comparing files, metafile, mangle cache and diagnostics. One defect found and fixed (diagnostics without location kept arrival order).",
         "note": "Trusted: Lean kernel, harness, Go string order. The Go scheduler is perturbed, not enumerated: the search cannot show absence of a rare interleaving.",
